@@ -254,6 +254,10 @@ def processBlock (h : Hist) (b : Block) (outcome : Outcome) : Hist :=
           { h with diff := some s!"event={evNo} kind=state topic={topic} :: model sessions {ms} implementation {b.sessions}" }
         else if srv'.gauge != b.gauge then
           { h with diff := some s!"event={evNo} kind=gauge topic={topic} :: model {srv'.gauge} implementation {b.gauge}" }
+        else if let some g := b.extra.find? (·.startsWith "gaugekeys ") then
+          -- the session gauge is kept per application: each label counts the registered sessions created under it
+          { h with diff := some s!"event={evNo} kind=gauge topic={topic} :: per application {g}",
+                   concViol := h.concViol.push ("C07", "session-gauge-off", s!"after event {evNo} ({" ".intercalate (b.ev.take 6)}) the session gauge of an application differs from the number of its registered sessions: {g}") }
         else match ghostDiff srv' b.ghost with
           | none => h
           | some (what, detail) =>
